@@ -236,6 +236,24 @@ func (ck *Checker) disciplineObligations() []*Obligation {
 		}
 	}
 
+	// ---- C16 / C12: no untyped aliasing -------------------------------------------------------
+	{
+		var ubad []string
+		for _, short := range []string{"bcl", "main", "uvarint"} {
+			sp := p.Pkgs[short]
+			if sp == nil || sp.Pkg == nil {
+				continue
+			}
+			for _, imp := range sp.Pkg.Imports() {
+				if imp.Path() == "unsafe" {
+					ubad = append(ubad, "package "+sp.Pkg.Path()+" imports unsafe")
+				}
+			}
+		}
+		out = append(out, effectsObl("discipline/no-unsafe-aliasing", []string{"C16", "C12", "C06"}, len(ubad) == 0, "package scope",
+			"no package of the library imports unsafe: a value built through an untyped pointer can alias memory the caller still owns (an input buffer turned into a string without a copy), which the heap model has no account of and which makes a compiled program depend on what the caller does later", ubad))
+	}
+
 	// ---- C12.2 / C16: executing a Prog writes nothing reachable from it ----------------------
 	{
 		ex := bcl.Func("execute")
